@@ -12,7 +12,7 @@ import os
 
 from .flow import Engine
 
-FIXED = int(os.environ.get("VERIF_SPMC_FIXED", "0"))   # set the default to 1 once the proposed patch (docs/spmc.md) is applied to /repo
+FIXED = int(os.environ.get("VERIF_SPMC_FIXED", "1"))   # set the default to 1 once the proposed patch (docs/spmc.md) is applied to /repo
 NW = 4
 
 ARITY = {"ts": 2, "sd": 2, "scl": 1, "sdr": 1, "scv": 1, "sob": 1, "tr": 2, "rv": 2, "rt": 2, "trb": 3,
